@@ -6,7 +6,7 @@
    the file that [enc] specifies, and every terminating concurrent execution of the decryption
    pipeline over that body writes exactly the plaintext.
    Only the statement; the proof is one [exact] of a lemma of FileConcGlue. *)
-From Wencry Require Import Bytes AesModel ModesModel FileModel FileSpec FileProps PipeConc PipeProps FileConcGlue.
+From Wencry Require Import Bytes AesModel ModesModel ModesProofs FileModel FileSpec FileProps PipeConc PipeProps FileConcGlue.
 Local Open Scope nat_scope.
 
 Theorem C01_roundtrip_under_every_schedule : forall c hbuf T P key seed cm hm,
@@ -30,3 +30,22 @@ Theorem C01_roundtrip_under_every_schedule : forall c hbuf T P key seed cm hm,
         concat (output (list N) s) = P /\ crashed (list N) s = None).
 Proof. exact C01_roundtrip_under_every_schedule_proof. Qed.
 Print Assumptions C01_roundtrip_under_every_schedule.
+
+(* every file that decryption accepts -- produced by encryption or not (authentic files made by other means, with an
+   empty or ragged body, any pad byte) -- is decrypted to the same bytes by EVERY terminating schedule of the concurrent
+   pipeline, and the load list the decryptor builds is always well formed (so C03 / C04 / C14 apply to it) *)
+Theorem C03_decrypt_of_any_accepted_file_under_every_schedule : forall c hbuf T F key out,
+  1 <= c -> 1 <= T -> bytes F -> dec c hbuf T F key = Ok out ->
+  exists kd, create false (nth 8 F 0%N) = Some kd /\
+    let E := aes_enc_with (genall key) in
+    let D := aes_dec_with (genall key) in
+    let iv16 := firstn 16 (skipn 48 F) in
+    let ls := loads_of c false (skipn (text_mark T) F) in
+    wf_loads ls /\
+    forall sched s,
+      run (list N) (runcry E D kd) (fun _ _ => []) c false
+          (init (list N) T (repeat iv16 T) ls) sched = Some s ->
+      terminal (list N) s = true ->
+      concat (output (list N) s) = out /\ crashed (list N) s = None.
+Proof. exact decrypt_under_every_schedule_proof. Qed.
+Print Assumptions C03_decrypt_of_any_accepted_file_under_every_schedule.
